@@ -1115,6 +1115,9 @@ func TestVerifC02MW(t *testing.T) {
 		})
 	}, func(c c02MCase) []vrt.Finding { return c02MRun(r, rig, c) })
 
+	// Tier b, several blocked services per profile with production caches.
+	c02SPart(r, t.TempDir(), t.TempDir())
+
 	// Tier c, the request context ends while upstream resolves: cancelled
 	// before / after upstream's answer is written, or its deadline passes
 	// (upstream answers only after ctx.Done()).  Response-side block rules on
